@@ -126,6 +126,10 @@ def enum_labels(ctx, case):
     arg = ref['messages'][mname][k]
     enum = protocol_ref.enum_for(best, iface, mname, arg)
     v = ctx.fresh_bv('value', 33)
+    # earlier in the session the same value was decoded for arguments of OTHER interfaces whose enum is written the same way in the XML
+    # (`anchor`, `mode`, `state`, `error` ... are local names): what was worked out there says nothing about this argument
+    for (i2, m2, k2) in _same_spelling(protocol, best, iface, mname, k):
+        wl.Arg.Int(v).resolve(None, _Msg(i2, m2), k2)
     a = wl.Arg.Int(v)
     if arg.get('type') == 'array' and ctx.choose([False, True], 'as_array_element'):
         # an enum-tagged array (xdg_toplevel.configure states ...): GDB mode delivers the elements, each is annotated like a scalar
@@ -175,6 +179,53 @@ def enum_labels(ctx, case):
     finally:
         util.color_output = saved
     ctx.check('rendered as value:label&label', s == str(v) + ':' + '&'.join(labels))
+
+
+_SPELL = {}
+
+
+def _same_spelling(protocol, best, iface, mname, k):
+    """up to three arguments of other interfaces whose enum reference is spelled like this one's and denotes another enum"""
+    from spec import protocol_ref
+    if not _SPELL:
+        for i2 in sorted(protocol.interfaces.keys()):
+            ref2 = _ref_for(protocol, best, i2)
+            for m2, args2 in (ref2['messages'].items() if ref2 else []):
+                for k2, a2 in enumerate(args2):
+                    path = protocol_ref.HAND_TAGS.get((i2, m2, a2['name'])) or a2['enum']
+                    if path and (i2, m2) != ('wl_registry', 'bind'):
+                        _SPELL.setdefault(path, []).append((i2, m2, k2))
+    ref = _ref_for(protocol, best, iface)
+    arg = ref['messages'][mname][k]
+    path = protocol_ref.HAND_TAGS.get((iface, mname, arg['name'])) or arg['enum']
+    mine = protocol_ref.enum_for(best, iface, mname, arg)
+    out = []
+    for (i2, m2, k2) in _SPELL.get(path, []):
+        if i2 != iface and protocol_ref.enum_for(best, i2, m2, _ref_for(protocol, best, i2)['messages'][m2][k2]) != mine and i2 not in [o[0] for o in out]:
+            out.append((i2, m2, k2))
+    return out[:3]
+
+
+def undeclared(ctx, case):
+    """every integer argument for which the shipped descriptions (and the documented hand tags) declare NO enum stays a plain number, whatever the value"""
+    from core import wl
+    from spec import protocol_ref
+    protocol, best = _load()
+    v = ctx.fresh_bv('value', 33)
+    n = 0
+    for iface in case:
+        ref = _ref_for(protocol, best, iface)
+        for mname, args in (ref['messages'].items() if ref else []):
+            if (iface, mname) == ('wl_registry', 'bind'):
+                continue
+            for k, arg in enumerate(args):
+                if arg['type'] in ('int', 'uint') and protocol_ref.enum_for(best, iface, mname, arg) is None and not arg['enum']:
+                    a = wl.Arg.Int(v)
+                    a.resolve(None, _Msg(iface, mname), k)
+                    n += 1
+                    ctx.check('%s.%s argument %d (%s) has no enum in the protocol: it is shown as a plain number' % (iface, mname, k, arg['name']),
+                              getattr(a, 'labels', None) is None and a.name == arg['name'])
+    ctx.note('arguments', n)
 
 
 def version_precedence(ctx, case):
@@ -424,6 +475,8 @@ def obligations(tier):
         Ob('enum-labels', 'symx', 'labels of every enum-typed argument for every 33-bit value (through Arg.Int.resolve), equality vs bit-intersection, sentinels, order, rendering',
            FUNCS, '%d enum-typed arguments%s; value: all of [0, 2^33)' % (len(enum_cases), ' (bitfields with > 9 entries only in the thorough tier)' if tier == 'quick' else ''),
            enum_labels, cases=enum_cases + plain, outside='negative values'),
+        Ob('undeclared-stay-plain', 'symx', 'every int/uint argument without an enum in the shipped descriptions (and outside the documented hand tags) is shown as a plain number for every value',
+           FUNCS, 'all integer arguments of %d interfaces; value: all of [0, 2^33)' % len(names), undeclared, cases=pos_cases),
         Ob('version-precedence', 'symx', 'protocol.load keeps the description with the greatest version whatever the order (versions symbolic)', FUNCS[5:6],
            'k = 2, 3, 4 descriptions of one interface, versions in [1, 1000)', version_precedence, cases=[2, 3, 4] if tier != 'quick' else [2, 3],
            stubs=['parse_protocol replaced by synthetic Protocol objects']),
